@@ -274,7 +274,12 @@ def impl_eag(tmp, key, pt, kid, halg, kw="direct"):
 
 def impl_geninfo(tmp, blob, cek, kid, kw):
     out = fresh_dir(tmp, "out")
-    fb, fk = os.path.join(tmp, "blob.bin"), os.path.join(tmp, "cek.bin")
+    inplace = len(blob) % 3 == 0
+    if inplace:
+        # the blob to convert already sits in the output directory under the name of an artifact (a conversion in place)
+        fb, fk = os.path.join(out, F_CONTENT), os.path.join(out, "cek.bin")
+    else:
+        fb, fk = os.path.join(tmp, "blob.bin"), os.path.join(tmp, "cek.bin")
     with open(fb, "wb") as fh:
         fh.write(blob)
     with open(fk, "wb") as fh:
@@ -284,7 +289,10 @@ def impl_geninfo(tmp, blob, cek, kid, kw):
                     kw_alg=kw, output_dir=out)
     finally:
         _clean_modules()
-    return read_dir(out)
+    files = read_dir(out)
+    if inplace:
+        files.pop("cek.bin", None)
+    return files
 
 
 def cli(args, cwd):
